@@ -75,7 +75,13 @@ class PolynomialApproximationSpace(ApproximationSpace):
             np.ndarray: Value of the basis function.
 
         """
-        i, j = divmod(k, self.degree + 1)
+        # Enumerate all exponents (i, j) with i + j <= degree
+        exponents = [
+            (i, j)
+            for i in range(self.degree + 1)
+            for j in range(self.degree + 1 - i)
+        ]
+        i, j = exponents[k]
         return x[..., 0] ** i * x[..., 1] ** j
 
 
